@@ -595,7 +595,7 @@ Section Exporter.
   Inductive eop :=
   | OOffer (n : Z)           (* one Send, then the pipeline runs to quiescence; with wait_for_result the
                                 flush timer fires before Send returns *)
-  | OBurst (ns : list Z)     (* pusher gate closed; Sends; gauges read; gate opened; run to quiescence *)
+  | OBurst (ns : list Z)     (* pusher gate closed; Sends; gauges read; gate opened; run to quiescence; gauges read *)
   | OFlush                   (* the batcher's flush timer fires *)
   | OBurstShut (ns : list Z). (* pusher gate closed; Sends; gauges read; then Shutdown is called - with a context that
                                 expires while the gate is still closed: the code does not look at it - and only then the
@@ -608,8 +608,13 @@ Section Exporter.
         let st2 := if is_wfr then run_quiet (flush_cur st1) else st1 in
         gauge st2
     | OBurst ns =>
+        (* with wait_for_result the gated Sends come from producers whose context ends while their request is
+           still queued / being exported (Offer returns the context's error; the request stays in the queue and
+           keeps its size until it is done); the flush timer fires before the pipeline is quiet *)
         let st1 := fold_left (fun s n => let s' := offer s n in pump_closed (S (length (s_queue s'))) s') ns st in
-        run_quiet (gauge st1)
+        let st2 := run_quiet (gauge st1) in
+        let st3 := if is_wfr then run_quiet (flush_cur st2) else st2 in
+        gauge st3
     | OFlush => gauge (run_quiet (flush_cur st))
     | OBurstShut ns =>
         gauge (fold_left (fun s n => let s' := offer s n in pump_closed (S (length (s_queue s'))) s') ns st)
